@@ -19,7 +19,7 @@ PRODUCERS = [q for q, (_, role) in O.QUERIES.items() if role == "P"]
 CONSUMERS = [q for q, (_, role) in O.QUERIES.items() if role in ("C", "X")]
 EXPORTS = [q for q, (_, role) in O.QUERIES.items() if role == "X"]
 ISOLATED_SHARE = 0.25
-FORK_OPS = ["deepcopy", "deepcopy", "pickle", "pickle", "reload", "reload", "derive_P1", "derive_cif", "derive_res", "stranger", "stranger", "drop"]
+FORK_OPS = ["deepcopy", "deepcopy", "pickle", "pickle", "reload", "reload", "derive_P1", "derive_cif", "derive_res", "stranger", "stranger", "other", "other", "drop"]
 RADII = [1.5, 3.0, 3.8, 6.0, 9.0]
 BOUNDS = [
     [[-1, -1, -1], [1, 1, 1]],
@@ -294,7 +294,7 @@ def template_run(verif_seed, index, stratum="template"):
 
 # ------------------------------------------- three-object fork patterns
 FORK3_FIRST = [None, "uc_atoms", "uc_mols", "sym_mols"]
-FORK3_KINDS = [("deepcopy", "deepcopy"), ("deepcopy", "pickle"), ("pickle", "deepcopy"), ("deepcopy", "reload"), ("stranger", "deepcopy")]
+FORK3_KINDS = [("deepcopy", "deepcopy"), ("deepcopy", "pickle"), ("pickle", "deepcopy"), ("deepcopy", "reload"), ("stranger", "deepcopy"), ("other", "deepcopy")]
 FORK3_TOPOLOGY = ["star", "chain"]  # both copies of h0 / copy of a copy
 FORK3_ORDER = [(0, 1), (1, 0), (0, 2), (2, 0), (1, 2), (2, 1)]  # which two handles are switched, in order
 FORK3_SOURCES = [
@@ -314,16 +314,30 @@ FORK3_SOURCES = [
         "occupation": None, "via": None,
     },
 ]  # fmt: skip
-N_FORK3 = len(FORK3_SOURCES) * len(FORK3_FIRST) * len(FORK3_KINDS) * len(FORK3_TOPOLOGY) * len(FORK3_ORDER)
+FORK3_SOURCES.append(
+    {
+        "kind": "synthetic", "content": "co", "sg": [33, ""],
+        "cell": [9.3, 7.9, 11.2, 90.0, 90.0, 90.0],
+        "elements": ["O", "H", "H", "C", "N"],
+        "frac": [[0.12, 0.27, 0.31], [0.2, 0.3, 0.33], [0.08, 0.33, 0.36], [0.45, 0.1, 0.7], [0.53, 0.13, 0.75]],
+        "occupation": None, "via": "cif", "quirks": ["shifted_origin"], "labels": None,
+    }
+)  # fmt: skip
+# the third source cannot switch its setting: one order of (failing) switches is enough there
+FORK3_COMBOS = [
+    (si, f, k, t, o)
+    for si in range(len(FORK3_SOURCES))
+    for f in range(len(FORK3_FIRST))
+    for k in range(len(FORK3_KINDS))
+    for t in range(len(FORK3_TOPOLOGY))
+    for o in range(len(FORK3_ORDER) if si < 2 else 1)
+]
+N_FORK3 = len(FORK3_COMBOS)
 
 
 def fork3_of(index):
-    i = index % N_FORK3
-    i, o = divmod(i, len(FORK3_ORDER))
-    i, t = divmod(i, len(FORK3_TOPOLOGY))
-    i, k = divmod(i, len(FORK3_KINDS))
-    i, f = divmod(i, len(FORK3_FIRST))
-    return FORK3_SOURCES[i % len(FORK3_SOURCES)], FORK3_FIRST[f], FORK3_KINDS[k], FORK3_TOPOLOGY[t], FORK3_ORDER[o]
+    si, f, k, t, o = FORK3_COMBOS[index % N_FORK3]
+    return FORK3_SOURCES[si], FORK3_FIRST[f], FORK3_KINDS[k], FORK3_TOPOLOGY[t], FORK3_ORDER[o]
 
 
 def fork3_run(verif_seed, index, stratum="fork3"):
